@@ -347,6 +347,13 @@ static void init_s3() {
     bad("cdata-end-after-bracket-text", "<a>]x]]]></a>"); good("brackets-then-entity-gt", "<a>]]]&gt;</a>"); good("cdata-ending-in-brackets", "<a><![CDATA[]]]]]></a>"); good("brackets-in-text", "<a>]] ></a>"); bad("bare-amp", "<a>&</a>"); bad("bare-lt", "<a><</a>"); good("bare-gt", "<a>></a>");
     bad("ref-no-semicolon", "<a>&lt</a>"); bad("ref-undeclared", "<a>&u;</a>"); bad("charref-zero", "<a>&#0;</a>"); bad("charref-surrogate", "<a>&#xD800;</a>");
     bad("charref-ffff", "<a>&#xFFFF;</a>"); bad("charref-fffe", "<a>&#xFFFE;</a>"); bad("charref-too-big", "<a>&#x110000;</a>"); bad("charref-empty", "<a>&#;</a>"); bad("charref-hex-upper-x", "<a>&#X41;</a>");
+    // values that only look legal after wrapping round 32 or 64 bits
+    bad("charref-wraps-32-hex", "<a>&#x100000041;</a>"); bad("charref-wraps-32-dec", "<a>&#4294967361;</a>"); bad("charref-wraps-32-attr", "<a x='&#x100000041;'/>");
+    bad("charref-wraps-32-supplementary", "<a>&#x200010000;</a>"); bad("charref-wraps-64-hex", "<a>&#x10000000000000041;</a>"); bad("charref-wraps-64-dec", "<a>&#18446744073709551681;</a>");
+    bad("charref-wraps-32-via-entity", "<!DOCTYPE a [<!ENTITY e '&#38;#x100000041;'>]><a>&e;</a>", true);
+    bad("charref-wraps-32-in-entity-value", "<!DOCTYPE a [<!ENTITY e '&#x100000041;'>]><a>&e;</a>", true); bad("charref-wraps-32-in-entity-value-unused", "<!DOCTYPE a [<!ENTITY e '&#x100000041;'>]><a/>", true);
+    bad("charref-wraps-32-in-attr-default", "<!DOCTYPE a [<!ATTLIST a x CDATA '&#x100000041;'>]><a/>", true); bad("charref-wraps-32-dec-in-entity-value", "<!DOCTYPE a [<!ENTITY e '&#4294967361;'>]><a/>", true);
+    bad("charref-too-big-in-entity-value", "<!DOCTYPE a [<!ENTITY e '&#x110000;'>]><a/>", true); bad("charref-zero-in-entity-value", "<!DOCTYPE a [<!ENTITY e '&#0;'>]><a/>", true);
     bad("charref-c0", "<a>&#1;</a>"); good("charref-tab-lf-cr", "<a>&#9;&#10;&#13;</a>"); good("charref-max", "<a>&#x10FFFF;</a>"); good("charref-fffd", "<a>&#xFFFD;</a>"); good("charref-leading-zeros", "<a>&#0000065;&#x00041;</a>");
     bad("ctrl-char", "<a>\x01</a>"); bad("ctrl-char-1f", "<a>\x1f</a>"); good("del-char", "<a>\x7f</a>"); bad("ffff-raw", "<a>\xEF\xBF\xBF</a>"); bad("fffe-raw", "<a>\xEF\xBF\xBE</a>"); good("fffd-raw", "<a>\xEF\xBF\xBD</a>");
     // comments, PIs, CDATA
